@@ -1,11 +1,18 @@
 """C17 - plot labels: aliases replace the nearest aliased ancestor, all modules labelled.
 
   C17.R1  the aliased-ancestor test is boundary-safe, regex-free, and the label is alias + the rest of the name after the ancestor
-  C17.R2  candidates are ordered most-specific first and the first match wins
+  C17.R2  the most specific aliased ancestor wins (whatever the mechanism: ordered candidates + first match, walk up the parents, longest match)
   C17.R3  every node gets exactly one label; the default is the full name
-  C17.R4  the existence check dominates label creation and raises an error naming the missing module
+  C17.R4  the existence check runs before the backend is called and raises an error naming the missing module
   C17.R5  remaining options are passed through to the drawing backend unchanged
   C17.R6  label computation keeps no state (no writes to the graph object, class or module)
+  C17.R7  the public entry point `EvaluableArchitecture.visualize(**kwargs)` hands the caller's options to the graph's draw() unchanged
+
+All rules are decided on the *deep view* of the public entry point `NetworkxGraph.draw` (rules/c17_view.py): one flat function body
+in which the private helpers - whatever their names, number and location - are substituted.  Roles are found through the
+documented option names ('aliases', 'spacing'), the backend's keywords ('labels', 'pos'), `networkx.draw_networkx` and its graph
+argument; values are followed through locals symbolically (rules/c17_model.py).  Each rule reports VIOLATED only for a construct it
+can name; shapes it cannot read are reported as undecided.
 """
 
 from __future__ import annotations
@@ -14,152 +21,510 @@ import ast
 
 from core.cfg import EXIT
 from core.effects import Effects
-from core.guards import atom, equivalent, f_not, implies
-from core.loader import AnalysisError, Repo, ancestors as ancestors_of, calls_in, header, norm, own_nodes, parent
+from core.guards import TRUE, atom, atoms_of, equivalent, f_and, f_not, f_or, implies, to_formula
+from core.loader import AnalysisError, Repo, header, norm, own_nodes
 from core.report import Result
 
 from . import names
-from .c14 import add_sites
-from .common import cfg_of, conds, dotted, guard_formula, is_attr_call, loops_around, reachable_funcs, stmt_of, types_of, where
+from .c17_model import Model, const_str
+from .c17_view import _walk_own, deep_view
+from .common import cfg_of, reachable_funcs, stmt_of, types_of, where
 
 NXGRAPH = "pytestarch.eval_structure.networkxgraph"
+# public helpers whose *meaning* the rules know: they stay calls in the view
+VOCABULARY = {"get_parent_modules"}
 
 
 def run(repo: Repo) -> Result:
     res = Result("C17")
     res.explanation = (
-        "Decides the label mechanism structurally: the aliased-ancestor test compares whole dotted components and uses no regex or "
-        "str.replace; the label is the alias plus the remainder after the matched ancestor; candidates are tried longest first; every node of "
-        "the graph gets exactly one label with the full name as default; aliases for unknown modules raise before any label is built; all "
-        "other options reach draw_networkx unchanged; label computation writes no state."
+        "Decides the label mechanism structurally on the flattened view of NetworkxGraph.draw (helpers substituted, comprehensions unrolled): "
+        "the aliased-ancestor test compares whole dotted components and uses no regex or str.replace; the label is the alias plus the remainder "
+        "after the matched ancestor; the most specific aliased ancestor wins (ordered candidates with first match, a walk up the parent modules, "
+        "or a longest-match selection); every node of the graph gets exactly one label with the full name as default; aliases for unknown modules "
+        "raise before the backend is called; all other options reach draw_networkx unchanged; label computation writes no state."
     )
     res.not_decided = "the label map as a function on all trees (values are not computed)."
-    res.trusted_base = ["engine flow analysis and CFG dominance"]
+    res.trusted_base = ["engine flow analysis and CFG dominance", "statement-level inlining (core/inline_stmt.py, rules/c17_view.py)"]
     g = repo.cls(NXGRAPH, "NetworkxGraph")
     draw = g.methods.get("draw")
     if draw is None:
         raise AnalysisError("NetworkxGraph.draw not found")
-    label_funcs = [f for f in reachable_funcs(repo, [draw], byname=False) if f.cls is g]
-    fq = {f.fq for f in label_funcs}
-    # R1
-    sites = [s for s in names.scan(repo) if s.fi.fq in fq]
-    n = add_sites(repo, res, "C17.R1", sites)
-    res.floor("C17.R1", 2, n)
-    # the function computing one label: takes the module name and the alias mapping, returns str on two paths
-    mk = None
-    for f in label_funcs:
-        rets = [s for s in own_nodes(f.node) if isinstance(s, ast.Return) and s.value is not None]
-        if "aliases" in f.param_names and len(f.param_names) >= 3 and any(dotted(r.value) == f.param_names[1] for r in rets) and f is not draw:
-            mk = f
-    if mk is None:
-        raise AnalysisError("the function computing a single label was not found")
-    namep = mk.param_names[1]
-    rets = [s for s in own_nodes(mk.node) if isinstance(s, ast.Return) and s.value is not None]
-    default = [r for r in rets if dotted(r.value) == namep]
-    built = [r for r in rets if r not in default]
-    ok = len(built) == 1
-    detail = "exactly one aliased return"
-    if ok:
-        v = built[0].value
-
-        def resolve(e, depth=0):
-            if isinstance(e, ast.Name) and depth < 3:
-                a = [s for s in own_nodes(mk.node) if isinstance(s, ast.Assign) and dotted(s.targets[0]) == e.id]
-                if len(a) == 1:
-                    return resolve(a[0].value, depth + 1)
-            return e
-
-        v = resolve(v)
-        ok = isinstance(v, ast.BinOp) and isinstance(v.op, ast.Add)
-        if ok:
-            left, right = resolve(v.left), resolve(v.right)
-            is_alias = isinstance(left, ast.Subscript) and dotted(left.value) == "aliases"
-            is_rest = (isinstance(right, ast.Subscript) and isinstance(right.slice, ast.Slice) and dotted(right.value) == namep and right.slice.upper is None and "len(" in norm(right.slice.lower or ast.Constant(0))) or (
-                isinstance(right, ast.Call) and isinstance(right.func, ast.Attribute) and right.func.attr == "removeprefix" and dotted(right.func.value) == namep
-            )
-            key_same = is_alias and isinstance(right, ast.Subscript) and norm(left.slice) in norm(right.slice)
-            ok = is_alias and is_rest and (key_same or not isinstance(right, ast.Subscript))
-        detail = "label = aliases[ancestor] + name[len(ancestor):]" if ok else f"the aliased label is built as `{norm(built[0].value, 90)}`: not 'alias of the matched ancestor + the rest of the name after it'"
-    res.add("C17.R1", f"{mk.relpath}::{mk.qualname}::label shape", ok, detail, where(mk, mk.node), kind="structural")
-    res.add("C17.R3", f"{mk.relpath}::{mk.qualname}::default label", len(default) >= 1, "modules without an aliased ancestor keep their full name" if default else "no path returns the unchanged module name", where(mk, mk.node), kind="structural")
-    # R2: ordering
-    mkcalls = [(f, c) for f in label_funcs for c in calls_in(f.node) if isinstance(c.func, ast.Attribute) and c.func.attr == mk.name]
-    if not mkcalls:
-        raise AnalysisError("call site of the label function not found")
-    caller, call = mkcalls[0]
-    seqp = mk.param_names[2]
-    seq_arg = call.args[1] if len(call.args) > 1 else None
-    srt = None
-    if isinstance(seq_arg, ast.Name):
-        a = [s for s in own_nodes(caller.node) if isinstance(s, ast.Assign) and dotted(s.targets[0]) == seq_arg.id]
-        if len(a) == 1 and isinstance(a[0].value, ast.Call) and dotted(a[0].value.func) == "sorted":
-            srt = a[0].value
-    ok = False
-    if srt is not None:
-        kw = {k.arg: k.value for k in srt.keywords}
-        key = kw.get("key")
-        rev = kw.get("reverse")
-        by_len = key is not None and ("len" in norm(key) or 'count(".")' in norm(key).replace("'", '"'))
-        neg = key is not None and isinstance(key, ast.Lambda) and isinstance(key.body, ast.UnaryOp) and isinstance(key.body.op, ast.USub)
-        ok = by_len and ((isinstance(rev, ast.Constant) and rev.value is True and not neg) or (rev is None and neg))
-        ok = ok and "aliases" in norm(srt.args[0])
-    res.add("C17.R2", f"{caller.relpath}::{caller.qualname}::most specific first", ok, "aliased modules are tried longest name first" if ok else "aliased modules are not ordered most-specific (longest) first: a parent's alias can win over a sub module's alias", where(caller, caller.node), kind="structural")
-    nx_ = [c for c in calls_in(mk.node) if dotted(c.func) == "next"]
-    gens = [g_ for g_ in own_nodes(mk.node) if isinstance(g_, ast.GeneratorExp)]
-    loops_ = [l for l in own_nodes(mk.node) if isinstance(l, ast.For) and dotted(l.iter) == seqp]
-    ok = (len(nx_) == 1 and len(gens) == 1 and dotted(gens[0].generators[0].iter) == seqp) or (len(loops_) == 1 and any(isinstance(x, ast.Return) for x in ast.walk(loops_[0])))
-    res.add("C17.R2", f"{mk.relpath}::{mk.qualname}::first match wins", ok, "the first matching aliased module (in that order) is used" if ok else "the aliased ancestor is not chosen as the first match over the ordered candidates", where(mk, mk.node), kind="structural")
-    # R3: every node exactly one label
-    lp = [l for l in own_nodes(caller.node) if isinstance(l, ast.For) and any(c is call for c in ast.walk(l))]
-    ok = False
-    if len(lp) == 1:
-        src = dotted(lp[0].iter)
-        a = [s for s in own_nodes(caller.node) if (isinstance(s, ast.Assign) and dotted(s.targets[0]) == src) or (isinstance(s, ast.AnnAssign) and dotted(s.target) == src and s.value is not None)]
-        all_nodes = len(a) == 1 and "_graph.nodes" in norm(a[0].value) and not any(isinstance(x, (ast.Subscript, ast.comprehension)) for x in ast.walk(a[0].value))
-        st = stmt_of(call)
-        keyed = isinstance(st, ast.Assign) and isinstance(st.targets[0], ast.Subscript) and dotted(st.targets[0].slice) == dotted(lp[0].target) and dotted(call.args[0]) == dotted(lp[0].target)
-        uncond = len(conds(caller, st)) == len(conds(caller, lp[0])) and not any(isinstance(x, (ast.Break, ast.Continue)) for x in ast.walk(lp[0]))
-        ok = all_nodes and keyed and uncond
-    res.add("C17.R3", f"{caller.relpath}::{caller.qualname}::one label per node", ok, "every node of the graph gets exactly one label" if ok else "not every node of the graph gets exactly one label keyed by its own name", where(caller, caller.node), kind="structural")
-    rets_c = [s for s in own_nodes(caller.node) if isinstance(s, ast.Return)]
-    # R4: existence check
-    chk = [c for c in calls_in(caller.node) if isinstance(c.func, ast.Attribute) and dotted(c.func.value) == "self" and c is not call and any(isinstance(r, ast.Raise) for r in own_nodes(getattr(repo.lookup_method(g, c.func.attr), "node", ast.Pass())) if repo.lookup_method(g, c.func.attr) is not None)]
-    ok = len(chk) >= 1 and bool(lp) and cfg_of(caller).dominates(stmt_of(chk[0]), lp[0]) and not conds(caller, chk[0])
-    res.add("C17.R4", f"{caller.relpath}::{caller.qualname}::existence check first", ok, "aliases are validated before any label is built" if ok else "labels are built without the aliased modules having been checked for existence", where(caller, caller.node), kind="dominance")
-    if chk:
-        cf = repo.lookup_method(g, chk[0].func.attr)
-        raises = [r for r in own_nodes(cf.node) if isinstance(r, ast.Raise)]
-        ok = False
-        for r in raises:
-            lps = [l for l in loops_around(r, cf.node) if isinstance(l, ast.For)]
-            if lps and "aliases" in norm(lps[0].iter):
-                v = dotted(lps[0].target)
-                gf = guard_formula(cf, r)
-                names_ = [a for a in (atom(f"{v} in {p}") for p in cf.param_names)]
-                if any(equivalent(gf, f_not(a)) for a in names_) and any(isinstance(x, ast.FormattedValue) and dotted(x.value) == v for x in ast.walk(r)):
-                    ok = True
-        res.add("C17.R4", f"{cf.relpath}::{cf.qualname}::raises naming the module", ok, "an alias for a module that is not in the graph raises an error naming it" if ok else "an alias for an unknown module is not rejected with an error that names the module", where(cf, cf.node), kind="dominance")
-    # R5: pass-through
-    dn = [c for c in calls_in(draw.node) if dotted(c.func).endswith("draw_networkx")]
-    ok = len(dn) == 1 and len(dn[0].args) == 1 and "_graph" in norm(dn[0].args[0]) and len(dn[0].keywords) == 1 and dn[0].keywords[0].arg is None and dotted(dn[0].keywords[0].value) == "kwargs" and cfg_of(draw).dominates(stmt_of(dn[0]), EXIT)
-    res.add("C17.R5", f"{draw.relpath}::{draw.qualname}::hand-off", ok, "draw_networkx(self._graph, **kwargs) on every path" if ok else "the drawing backend is not called as draw_networkx(self._graph, **kwargs) on every path", where(draw, draw.node), kind="structural")
-    popped = sorted(c.args[0].value for c in calls_in(draw.node) if is_attr_call(c, "pop") and dotted(c.func.value) == "kwargs" and c.args and isinstance(c.args[0], ast.Constant))
-    deleted = [s for s in own_nodes(draw.node) if isinstance(s, ast.Delete)]
-    stored = sorted(s.targets[0].slice.value for s in own_nodes(draw.node) if isinstance(s, ast.Assign) and isinstance(s.targets[0], ast.Subscript) and dotted(s.targets[0].value) == "kwargs" and isinstance(s.targets[0].slice, ast.Constant))
-    rebound = [s for s in own_nodes(draw.node) if isinstance(s, ast.Assign) and dotted(s.targets[0]) == "kwargs"]
-    ok = popped == ["aliases", "spacing"] and stored == ["labels", "pos"] and not deleted and not rebound
-    res.add("C17.R5", f"{draw.relpath}::{draw.qualname}::options", ok, "only 'spacing' and 'aliases' are consumed, only 'pos' and 'labels' are added" if ok else f"draw consumes {popped}{' and deletes/rebinds options' if deleted or rebound else ''} and adds {stored}: other drawing options do not reach the backend unchanged", where(draw, draw.node), kind="structural")
-    for key_, var in (("aliases", "labels"), ("spacing", "pos")):
-        st = [s for s in own_nodes(draw.node) if isinstance(s, ast.Assign) and isinstance(s.targets[0], ast.Subscript) and isinstance(s.targets[0].slice, ast.Constant) and s.targets[0].slice.value == var]
-        ok = False
-        if len(st) == 1:
-            ifs = [a_ for a_ in ancestors_of(st[0]) if isinstance(a_, ast.If)]
-            ok = len(ifs) == 1 and not any(st[0] is x for o in ifs[0].orelse for x in ast.walk(o)) and isinstance(ifs[0].test, ast.Compare) and isinstance(ifs[0].test.ops[0], ast.In) and isinstance(ifs[0].test.left, ast.Constant) and ifs[0].test.left.value == key_ and dotted(ifs[0].test.comparators[0]) == "kwargs"
-        res.add("C17.R5", f"{draw.relpath}::{draw.qualname}::{var} only with {key_}", ok, f"'{var}' is set exactly when '{key_}' was given" if ok else f"'{var}' is not set under the condition that '{key_}' was given", where(draw, draw.node), kind="dominance")
-    # R6: no state
-    E = Effects(repo, types_of(repo))
-    bad = [w for f in label_funcs for w in E.writes(f) if w.root_kind in ("self", "classvar", "global") or (w.root_kind == "param" and w.root != "kwargs")]
-    for w in bad:
-        res.add("C17.R6", repo.key(w.fi, stmt_of(w.node)), False, f"`{header(stmt_of(w.node))}` keeps state on {w.root_kind} `{w.root}.{w.field}` while computing labels: a later visualize call with other aliases can be served stale labels", where(w.fi, w.node), kind="effect")
-    res.add("C17.R6", f"{draw.relpath}::NetworkxGraph::label functions are stateless", not bad, f"{len(label_funcs)} functions reachable from draw write no object, class or module state", kind="effect")
+    T = types_of(repo)
+    V = deep_view(repo, draw, T, allow=lambda caller, callee: callee.name not in VOCABULARY)
+    M = Model(repo, draw, V)
+    res.analysed["inlined_into_draw"] = sorted({x.split("::")[-1] for x in V.inlined})
+    visualize_passthrough(repo, res)
+    ctx = Ctx(repo, res, draw, M)
+    ctx.lint()
+    ctx.options()
+    ctx.existence_check()
+    ctx.labels()
+    ctx.stateless()
     return res
+
+
+def add_sites(repo: Repo, res: Result, rule: str, sites) -> int:
+    """One obligation per classified F-NAME site (same reporting as C14.R1; kept here so that C17 does not depend on C14's rule module)."""
+    n = 0
+    for s in sites:
+        key = repo.key(s.fi, stmt_of(s.node)) + f" [{s.op}: {norm(s.node, 70)}]"
+        if s.verdict in ("safe", "unsafe"):
+            n += 1
+            res.add(rule, key, s.verdict == "safe", s.why, where(s.fi, s.node), kind="flow")
+        elif s.verdict == "reviewed":
+            res.observe(f"{rule} reviewed site {s.fi.relpath}::{s.fi.qualname}: `{norm(s.node, 60)}` - {s.why}")
+        elif s.verdict == "unknown":
+            res.undecide(rule, key, s.why, where(s.fi, s.node))
+        elif s.verdict == "unclassified":
+            res.observe(f"{rule} unclassified (not armed) {s.fi.relpath}::{s.fi.qualname}: `{norm(s.node, 60)}` - {s.why}")
+    return n
+
+
+ARCH_MOD = "pytestarch.eval_structure.evaluable_architecture"
+MUTATING = {"pop", "popitem", "clear", "update", "setdefault", "__setitem__", "__delitem__", "remove", "append", "extend", "insert", "sort", "reverse", "add", "discard"}
+
+
+class _Light:
+    """what rules/c17_options.OptionsEval needs of a context"""
+
+    def __init__(self, repo: Repo, fi, M: Model) -> None:
+        self.repo, self.draw, self.M = repo, fi, M
+        self.types = types_of(repo)
+        self.vocabulary = VOCABULARY | {"draw"}
+
+
+def visualize_passthrough(repo: Repo, res: Result) -> None:
+    """C17.R7: between the public `visualize(**kwargs)` and the graph's `draw(**kwargs)` nothing is taken out of, added to or changed in
+    the caller's options - in particular the aliases mapping is not filtered, rebuilt or mutated.  Decided on the deep view of every
+    concrete `visualize` (the graph's draw() stays a call in it) with the same symbolic evaluation of the spliced dict as R5,
+    with consumed = {} and added = {}."""
+    from .c17_options import OptionsEval
+    from .c17_rules import opaque_calls
+
+    rule = "C17.R7"
+    base_cls = repo.get_class(f"{ARCH_MOD}.EvaluableArchitecture")
+    if base_cls is None:
+        raise AnalysisError("EvaluableArchitecture (public API) not found")
+    def stub(m) -> bool:
+        body = [s_ for s_ in m.node.body if not (isinstance(s_, ast.Expr) and isinstance(s_.value, ast.Constant))]
+        return all(isinstance(s_, ast.Pass) or (isinstance(s_, ast.Raise) and s_.exc is not None and "NotImplementedError" in norm(s_.exc)) for s_ in body)
+
+    impls = [m for m in repo.implementations(base_cls, "visualize") if not m.is_abstract and not stub(m)]
+    if not impls:
+        raise AnalysisError("no concrete EvaluableArchitecture.visualize found")
+    T = types_of(repo)
+    for vis in impls:
+        key = f"{vis.relpath}::{vis.qualname}::"
+        wh = where(vis, vis.node)
+
+        def is_draw(caller, callee) -> bool:
+            return callee.name == "draw" and callee.cls is not None
+
+        V = deep_view(repo, vis, T, allow=lambda caller, callee: not is_draw(caller, callee))
+        M = Model(repo, vis, V)
+        L = _Light(repo, vis, M)
+        if M.kw is None:
+            res.undecide(rule, key + "options to draw", "visualize() no longer takes **kwargs: the hand-over of the options cannot be read", wh)
+            continue
+        calls = []
+        for c in _walk_own(M.fn.body):
+            if isinstance(c, ast.Call) and isinstance(c.func, ast.Attribute) and c.func.attr == "draw":
+                ctx_, orig = getattr(c, "_src", (V, c))
+                try:
+                    cs, _how = T.callees(ctx_, orig, byname_fallback=True) if isinstance(orig, ast.Call) else ([], "")
+                except Exception:  # noqa: BLE001
+                    cs = []
+                if not cs or any(f.name == "draw" and f.cls is not None for f in cs):
+                    calls.append(c)
+        if not calls:
+            if opaque_calls(L):
+                res.undecide(rule, key + "options to draw", "no call of the graph's draw() in the flattened visualize(), but calls that could not be followed", wh)
+            else:
+                res.add(rule, key + "options to draw", False, "visualize() does not call the graph's draw(): nothing the caller passes is drawn", wh)
+            continue
+        cfg = cfg_of(V)
+        problems, unsure = [], []
+        ev = OptionsEval(L)
+        for c in calls:
+            star = [k for k in c.keywords if k.arg is None]
+            named = [k.arg for k in c.keywords if k.arg is not None]
+            if c.args:
+                problems.append("draw() is called with positional arguments")
+            if named:
+                problems.append(f"options {named} are fixed by visualize() itself")
+            if len(star) != 1:
+                problems.append("the caller's options are not forwarded as **kwargs" if not star else "several ** arguments")
+            else:
+                ev.eval(star[0].value)
+        if cfg.paths_avoiding("<ENTRY>", EXIT, {M.stmt_of(c) for c in calls}):
+            problems.append("draw() is not reached on every path that returns normally")
+        odd = list(dict.fromkeys(ev.odd))
+        if ev.consumed:
+            k0 = sorted(ev.consumed)[0]
+            problems.append(f"visualize() takes the option(s) {sorted(ev.consumed)} out of what the caller passed (`{norm(_node(ev.consumed[k0][0]), 50)}`)")
+        if ev.stored:
+            k0 = sorted(ev.stored)[0]
+            problems.append(f"visualize() sets / rebuilds the option(s) {sorted(ev.stored)} itself (`{norm(M.stmt_of(ev.stored[k0][0][0][-1]), 70)}`): draw() does not receive the caller's value")
+        if not ev.passthrough and not odd and not any("forwarded" in p_ for p_ in problems):
+            problems.append("the dict handed to draw() does not contain the caller's options")
+        # option values changed in place (`kwargs['aliases'].pop(..)`, `aliases = kwargs.get('aliases'); del aliases[k]`)
+        value_names = {n for n, bs in M.binds.items() if len(bs) == 1 and bs[0].kind == "assign" and bs[0].value is not None and M.option_source(bs[0].value) is not None}
+
+        def is_value(e: ast.expr) -> bool:
+            return (isinstance(e, ast.Name) and e.id in value_names) or M.option_source(e) is not None
+
+        for n in _walk_own(M.fn.body):
+            if isinstance(n, ast.Call) and isinstance(n.func, ast.Attribute) and n.func.attr in MUTATING and is_value(n.func.value):
+                problems.append(f"`{norm(n, 60)}` changes a value the caller passed in place")
+            elif isinstance(n, ast.Subscript) and isinstance(n.ctx, (ast.Store, ast.Del)) and is_value(n.value):
+                problems.append(f"`{norm(M.stmt_of(n), 60)}` changes a value the caller passed in place")
+        if problems:
+            res.add(rule, key + "options to draw", False, "; ".join(dict.fromkeys(problems)), M.where(calls[0]), kind="flow")
+        elif odd:
+            res.undecide(rule, key + "options to draw", "; ".join(odd[:2]), M.where(calls[0]))
+        else:
+            res.add(rule, key + "options to draw", True, f"`{norm(calls[0], 60)}` receives exactly what the caller passed to visualize(): nothing removed, added, rebuilt or changed in place", M.where(calls[0]), kind="flow")
+
+
+def _node(x):
+    return x[1] if isinstance(x, tuple) else x
+
+
+class Ctx:
+    def __init__(self, repo: Repo, res: Result, draw, M: Model) -> None:
+        self.repo, self.res, self.draw, self.M = repo, res, draw, M
+        self.base = f"{draw.relpath}::{draw.qualname}::"
+        self.types = types_of(repo)
+        self.vocabulary = VOCABULARY
+        self.label_value: ast.expr | None = None  # what is handed to the backend as `labels`
+        self.label_store: ast.AST | None = None
+        self.proved_sites: set[int] = set()  # ids of original nodes of name operations the label analysis has explained
+        self.unknown_sites: list = []
+
+    # ------------------------------------------------------------------ reporting helpers
+    def ok(self, rule: str, what: str, detail: str, node: ast.AST | None = None, kind: str = "structural") -> None:
+        self.res.add(rule, self.base + what, True, detail, self.M.where(node) if node is not None else where(self.draw, self.draw.node), kind=kind)
+
+    def bad(self, rule: str, what: str, detail: str, node: ast.AST | None = None, kind: str = "structural") -> None:
+        self.res.add(rule, self.base + what, False, detail, self.M.where(node) if node is not None else where(self.draw, self.draw.node), kind=kind)
+
+    def unsure(self, rule: str, what: str, detail: str, node: ast.AST | None = None) -> None:
+        self.res.undecide(rule, self.base + what, detail, self.M.where(node) if node is not None else where(self.draw, self.draw.node))
+
+    # ------------------------------------------------------------------ R1 (lint part)
+    def lint(self) -> None:
+        """F-NAME sites in everything reachable from draw.  `unknown` verdicts are kept back: the label analysis may explain them."""
+        fq = {f.fq for f in reachable_funcs(self.repo, [self.draw], byname=False)}
+        # the public name-list helpers (get_parent_modules) are C14.R2's business, not part of the label mechanism
+        sites = [s for s in names.scan(self.repo) if s.fi.fq in fq and s.fi.name not in VOCABULARY]
+        # prefix tests and cuts are judged again by the label analysis, which reads the whole match condition (a raw prefix test next
+        # to a test of the following character is boundary-safe; the lint looks at one operation at a time)
+        def held(s) -> bool:
+            if s.verdict == "unknown":
+                return True
+            if s.verdict != "unsafe":
+                return False
+            if s.op in ("startswith", "slice-by-len", "removeprefix", "partition", "slice-compare", "slice-by-index", "zip-components", "char-compare"):
+                return True  # tests / cuts that are judged together with the rest of the match condition
+            # replace(prefix, alias, 1): only the first occurrence - the matched prefix - is replaced
+            return s.op == "replace" and isinstance(s.node, ast.Call) and len(s.node.args) == 3 and isinstance(s.node.args[2], ast.Constant) and s.node.args[2].value == 1
+
+        self.unknown_sites = [s for s in sites if held(s)]
+        add_sites(self.repo, self.res, "C17.R1", [s for s in sites if not held(s)])
+        # the number of string operations on names is not fixed (component-wise or ancestor-walking mechanisms have none):
+        # the positive fixture shows on every run that the lint still bites
+        self.res.add("C17.R1", "fixture::engine/fixtures/name_ops.py", True, names.fixture_selfcheck(), nontrivial=False)
+
+    def settle_unknown_sites(self) -> None:
+        for s in self.unknown_sites:
+            key = self.repo.key(s.fi, stmt_of(s.node)) + f" [{s.op}: {norm(s.node, 70)}]"
+            if id(s.node) in self.proved_sites:
+                self.res.add("C17.R1", key, True, "operand roles established by the label analysis: the match condition as a whole holds exactly for the aliased module and its sub modules, the cut follows that match", where(s.fi, s.node), kind="flow")
+            elif s.verdict == "unsafe":
+                self.res.add("C17.R1", key, False, s.why, where(s.fi, s.node), kind="flow")
+            else:
+                self.res.undecide("C17.R1", key, s.why, where(s.fi, s.node))
+
+    # ------------------------------------------------------------------ R5
+    def options(self) -> None:
+        M = self.M
+        if M.kw is None:
+            self.unsure("C17.R5", "hand-off", "draw() no longer takes **kwargs: the option hand-off cannot be read")
+            return
+        calls = M.backend_calls
+        if not calls:
+            elsewhere = [f for f in reachable_funcs(self.repo, [self.draw], byname=False) if any(self._backend_in(f, c) for c in own_nodes(f.node) if isinstance(c, ast.Call))]
+            from .c17_rules import opaque_calls
+
+            if elsewhere or opaque_calls(self):
+                self.unsure("C17.R5", "hand-off", f"networkx.draw_networkx is called in {elsewhere[0].qualname}, which could not be flattened into draw" if elsewhere else "no call of networkx.draw_networkx in the flattened draw(), but calls that could not be followed")
+            else:
+                self.bad("C17.R5", "hand-off", "the drawing backend networkx.draw_networkx is not called on the way from draw()")
+            return
+        cfg = cfg_of(M.V)
+        problems = []
+        unsure_fw = None
+        named_all: list[tuple[ast.Call, ast.keyword]] = []
+        graphs = set()
+        for call in calls:
+            star = [k for k in call.keywords if k.arg is None]
+            named = [k for k in call.keywords if k.arg is not None]
+            named_all += [(call, k) for k in named]
+            garg = M.resolve(call.args[0]) if len(call.args) == 1 else None
+            if garg is None:
+                unsure_fw = unsure_fw or "draw_networkx is not called with the graph as its only positional argument"
+            else:
+                graphs.add(norm(garg))
+                if not self._is_graph(garg) and not (isinstance(garg, ast.Attribute) and isinstance(garg.value, ast.Name) and garg.value.id == M.selfname):
+                    unsure_fw = unsure_fw or f"the first argument `{norm(call.args[0], 40)}` is not recognised as the wrapped networkx graph"
+            if not star:
+                problems.append("the caller's options are not forwarded (no **kwargs in the backend call)")
+            elif len(star) != 1:
+                unsure_fw = unsure_fw or "several ** arguments in the backend call"
+            forced = [k.arg for k in named if k.arg not in ("labels", "pos")]
+            if forced:
+                problems.append(f"options {forced} are fixed by draw() itself")
+        if len(graphs) > 1:
+            unsure_fw = unsure_fw or f"draw_networkx is called with different graphs {sorted(graphs)}"
+        elif graphs and M.G is None:
+            M.G = next(iter(graphs))
+        call = calls[0]
+        if cfg.paths_avoiding("<ENTRY>", EXIT, {M.stmt_of(c) for c in calls}):
+            problems.append("draw_networkx is not reached on every path that returns normally")
+        if len(calls) > 1 and any(cfg.paths_avoiding(M.stmt_of(c1), M.stmt_of(c2), set()) for c1 in calls for c2 in calls if c1 is not c2):
+            unsure_fw = unsure_fw or "the backend can be called more than once on one path"
+        if problems:
+            self.bad("C17.R5", "hand-off", "; ".join(dict.fromkeys(problems)), call)
+        elif unsure_fw:
+            self.unsure("C17.R5", "hand-off", unsure_fw, call)
+        else:
+            self.ok("C17.R5", "hand-off", f"draw_networkx({M.G}, **{M.kw}) on every path" + (f" ({len(calls)} exclusive calls)" if len(calls) > 1 else ""), call)
+        # ---- what draw() removes from / adds to the options: symbolic evaluation of the dict spliced into the backend call
+        from .c17_options import OptionsEval
+
+        ev = OptionsEval(self)
+        for c_ in calls:
+            for k in c_.keywords:
+                if k.arg is None:
+                    ev.eval(k.value)
+                elif k.arg in ("labels", "pos"):
+                    ev.stored.setdefault(k.arg, []).append(((c_,), k.value))  # an explicit keyword: set exactly when that call is made
+        consumed: dict[str, list] = ev.consumed
+        stored: dict[str, list] = {k: [(nodes[-1], val, nodes) for nodes, val in items] for k, items in ev.stored.items()}
+        odd: list[str] = list(dict.fromkeys(ev.odd))
+        if not ev.passthrough and not odd and not problems and any(k.arg is None for c_ in calls for k in c_.keywords):
+            self.bad("C17.R5", "pass-through", "the dict spliced into the backend call does not contain the caller's options: other drawing options do not reach the backend", call)
+        # `labels = None ... if given: labels = <...>` + `labels=labels`: the option is effectively set where the local gets a value
+        for key_, items in list(stored.items()):
+            new_items = []
+            for node_, val, nodes_ in items:
+                if isinstance(val, ast.Name):
+                    bs = M.binds.get(val.id, [])
+                    nones = [b for b in bs if b.kind == "assign" and isinstance(b.value, ast.Constant) and b.value.value is None]
+                    rest = [b for b in bs if b not in nones]
+                    if nones and rest and all(b.kind == "assign" and b.value is not None for b in rest):
+                        new_items += [(b.stmt, b.value, (b.stmt,)) for b in rest]
+                        continue
+                new_items.append((node_, val, nodes_))
+            stored[key_] = new_items
+        extra_c = sorted(set(consumed) - {"spacing", "aliases"})
+        extra_s = sorted(set(stored) - {"pos", "labels"})
+        missing_c = sorted({"spacing", "aliases"} - set(consumed))
+        missing_s = sorted({"pos", "labels"} - set(stored))
+        if extra_c or extra_s or missing_c or missing_s:
+            parts = []
+            if extra_c:
+                parts.append(f"draw() swallows the option(s) {extra_c} (`{norm(_node(consumed[extra_c[0]][0]), 50)}`)")
+            if extra_s:
+                parts.append(f"draw() sets the option(s) {extra_s} itself")
+            if missing_c:
+                parts.append(f"{missing_c} are not removed from the options before the backend is called")
+            if missing_s:
+                parts.append(f"{missing_s} are not handed to the backend")
+            from .c17_rules import remaining_helper_calls
+
+            hidden = remaining_helper_calls(self, about=lambda e: isinstance(e, ast.expr) and M.is_options(e))
+            if not (extra_c or extra_s) and (hidden or odd):
+                self.unsure("C17.R5", "options", "; ".join(odd + parts + ([f"`{norm(hidden[0], 50)}` receives the options but could not be flattened into draw()"] if hidden else [])), call)
+            else:
+                self.bad("C17.R5", "options", "; ".join(parts) + ": other drawing options do not reach the backend unchanged", (_node(consumed[extra_c[0]][0]) if extra_c else call))
+        elif odd:
+            self.unsure("C17.R5", "options", "; ".join(odd), call)
+        else:
+            self.ok("C17.R5", "options", "only 'spacing' and 'aliases' are consumed, only 'pos' and 'labels' are added", call)
+        # ---- conditions
+        for opt, key_ in (("aliases", "labels"), ("spacing", "pos")):
+            what = f"{key_} only with {opt}"
+            present = atom(f"present:{opt}")
+            if key_ not in stored:
+                if odd:
+                    self.unsure("C17.R5", what, f"no store of '{key_}' into the options found ({odd[0]})", call)
+                else:
+                    self.bad("C17.R5", what, f"'{key_}' is never handed to the backend", call, kind="dominance")
+                continue
+            fs = [self._presence_formula(nodes_) for _n, _v, nodes_ in stored[key_]]
+            if any(f is None for f in fs):
+                self.unsure("C17.R5", what, f"the condition under which '{key_}' is set is not a test of the options", stored[key_][0][0])
+                continue
+            f = f_or(fs)
+            try:
+                same = equivalent(f, present)
+            except AnalysisError:
+                same = None
+            if same:
+                self.ok("C17.R5", what, f"'{key_}' is set exactly when '{opt}' was given", stored[key_][0][0], kind="dominance")
+            elif same is None or atoms_of(f) - {f"present:{opt}", "present:aliases", "present:spacing"}:
+                self.unsure("C17.R5", what, f"the condition under which '{key_}' is set mentions tests other than the presence of options", stored[key_][0][0])
+            else:
+                self.bad("C17.R5", what, f"'{key_}' is not set under the condition that '{opt}' was given", stored[key_][0][0], kind="dominance")
+            # removal on every path on which the option is present
+            if opt in consumed:
+                cf = [TRUE if isinstance(n, tuple) else self._presence_formula(n) for n in consumed[opt]]
+                cf = [TRUE if (x is None and len(getattr(n, "args", [])) > 1) else x for x, n in zip(cf, consumed[opt])]
+                if all(x is not None for x in cf) and not implies(present, f_or(cf)):
+                    self.bad("C17.R5", f"{opt} consumed", f"'{opt}' stays in the options on some path on which it was given: the backend receives an option it does not know", _node(consumed[opt][0]), kind="dominance")
+            if key_ == "labels":
+                self.label_store, self.label_value = stored[key_][0][0], stored[key_][0][1]
+                if len(stored[key_]) > 1:
+                    self.label_value = None
+
+    def _backend_in(self, f, c: ast.Call) -> bool:
+        fq = self.repo.resolve_name(f.module, c.func) if isinstance(c.func, (ast.Name, ast.Attribute)) else None
+        return bool(fq) and fq.startswith("networkx") and fq.endswith("draw_networkx")
+
+    def _is_graph(self, e: ast.expr) -> bool:
+        """`self.<attr>` where <attr> is bound to a networkx graph object somewhere in the class."""
+        M = self.M
+        if not (isinstance(e, ast.Attribute) and isinstance(e.value, ast.Name) and e.value.id == M.selfname and self.draw.cls is not None):
+            return False
+        for c in self.repo.mro(self.draw.cls):
+            for m in c.methods.values():
+                for n in own_nodes(m.node):
+                    if isinstance(n, (ast.Assign, ast.AnnAssign)) and n.value is not None:
+                        tg = n.targets if isinstance(n, ast.Assign) else [n.target]
+                        if any(isinstance(t, ast.Attribute) and t.attr == e.attr and isinstance(t.value, ast.Name) for t in tg) and isinstance(n.value, ast.Call):
+                            fq = self.repo.resolve_name(m.module, n.value.func) if isinstance(n.value.func, (ast.Name, ast.Attribute)) else None
+                            if fq and fq.startswith("networkx") and fq.rsplit(".", 1)[-1] in ("DiGraph", "Graph", "MultiDiGraph", "MultiGraph"):
+                                return True
+        return False
+
+    def _presence_formula(self, node):
+        """Path condition of `node` (or of all nodes of a tuple) as a formula over `present:<option>` atoms ('the caller passed this
+        option'); None if other tests occur."""
+        M = self.M
+        if isinstance(node, tuple):
+            fs = [self._presence_formula(n) for n in node]
+            return None if any(f is None for f in fs) else f_and(fs)
+
+        def sub(e: ast.expr):
+            if isinstance(e, ast.Compare) and len(e.ops) == 1:
+                l, op, r = e.left, e.ops[0], e.comparators[0]
+                if isinstance(op, (ast.In, ast.NotIn)) and const_str(l) is not None and M.is_options(r):
+                    a = atom(f"present:{const_str(l)}")
+                    return a if isinstance(op, ast.In) else f_not(a)
+                if isinstance(op, (ast.Is, ast.IsNot)) and isinstance(r, ast.Constant) and r.value is None:
+                    k = self._option_of(l)
+                    if k is not None:
+                        a = atom(f"present:{k}")
+                        return a if isinstance(op, ast.IsNot) else f_not(a)
+                if isinstance(op, (ast.Is, ast.IsNot, ast.Eq, ast.NotEq)) and isinstance(r, (ast.Name, ast.Attribute)):
+                    # a sentinel default: x = kwargs.pop('k', SENTINEL); x is not SENTINEL
+                    k = self._option_of(l, default=norm(r))
+                    if k is not None:
+                        a = atom(f"present:{k}")
+                        return a if isinstance(op, (ast.IsNot, ast.NotEq)) else f_not(a)
+            k = self._option_of(e)
+            if k is not None:
+                return atom(f"present:{k}")
+            return None
+
+        self._presence_sub = sub
+        cs = M.history_conds(node)
+        fs = []
+        for e, pol in cs:
+            f = to_formula(M.resolve(e), sub)
+            fs.append(f if pol else f_not(f))
+        f = f_and(fs)
+        if any(not a.startswith("present:") for a in atoms_of(f)):
+            return None
+        return f
+
+    def is_presence_test(self, e: ast.expr) -> bool:
+        """`e` only tests whether options were given ('aliases' in kwargs, aliases is not None, aliases is not SENTINEL, ...)"""
+        if not hasattr(self, "_presence_sub"):
+            self._presence_formula(self.M.fn.body[0])
+        f = to_formula(self.M.resolve(e), self._presence_sub)
+        ats = atoms_of(f)
+        return bool(ats) and all(a.startswith("present:") for a in ats)
+
+    def _option_of(self, e: ast.expr, default: str | None = None) -> str | None:
+        """option name if `e` is (a local bound to) a read of the option that yields None / the given default when it is absent"""
+        M = self.M
+        v = e
+        src = M.option_source(e)
+        if src is None and isinstance(e, ast.Name):
+            v = M.single_value(e.id)
+            src = M.option_source(v) if v is not None else None
+        if src is None or src[1] not in ("get", "get-default", "pop-default"):
+            return None
+        dflt = v.args[1] if isinstance(v, ast.Call) and len(v.args) > 1 else None
+        if default is None:
+            return src[0] if dflt is None or (isinstance(dflt, ast.Constant) and dflt.value is None) else None
+        return src[0] if dflt is not None and norm(dflt) == default else None
+
+    # ------------------------------------------------------------------ R4
+    def existence_check(self) -> None:
+        from .c17_rules import existence_check
+
+        existence_check(self)
+
+    # ------------------------------------------------------------------ R1 (shape), R2, R3
+    def labels(self) -> None:
+        from .c17_rules import labels
+
+        labels(self)
+        self.settle_unknown_sites()
+
+    # ------------------------------------------------------------------ R6
+    def stateless(self) -> None:
+        E = Effects(self.repo, types_of(self.repo))
+        funcs = list(reachable_funcs(self.repo, [self.draw], byname=False))
+        bad = []
+        for f in funcs:
+            for w in E.writes(f):
+                if w.root_kind == "self" and f.name in ("__init__", "__post_init__") and f.cls is not None and f.cls is not self.draw.cls and not self.repo.is_subclass(self.draw.cls, f.cls.fq):
+                    continue  # initialisation of a helper object created during the call, not state that outlives it
+                if w.root_kind in ("self", "classvar", "global"):
+                    bad.append(w)
+        # writes through a local alias of object / class state (`node = self._root; node[k] = v`): core/effects.py files them under 'local'
+        from core.effects import _root_and_path
+
+        for f in funcs:
+            if isinstance(f.node, ast.Lambda) or f.cls is None or not f.params or f.is_staticmethod:
+                continue
+            selfname = f.params[0].arg
+            helper_cls = f.cls is not self.draw.cls and not self.repo.is_subclass(self.draw.cls, f.cls.fq)
+            rooted: dict[str, str] = {}
+            for _ in range(4):
+                for n in own_nodes(f.node):
+                    if isinstance(n, ast.Assign) and len(n.targets) == 1 and isinstance(n.targets[0], ast.Name):
+                        root, path = _root_and_path(n.value)
+                        if isinstance(root, ast.Name) and root.id == selfname and path and path[0] != "[]" and not isinstance(n.value, ast.Call):
+                            rooted.setdefault(n.targets[0].id, path[0])
+                        elif isinstance(root, ast.Name) and root.id == selfname and path and path[0] != "[]" and isinstance(n.value, ast.Call) and isinstance(n.value.func, ast.Attribute) and n.value.func.attr in ("setdefault", "get"):
+                            rooted.setdefault(n.targets[0].id, path[0])
+                        elif isinstance(root, ast.Name) and root.id in rooted and (path or isinstance(n.value, ast.Name)):
+                            rooted.setdefault(n.targets[0].id, rooted[root.id])
+            for w in E.writes(f):
+                if w.root_kind == "local" and w.root in rooted and not w.fresh:
+                    attr = rooted[w.root]
+                    if helper_cls and not E._is_class_level(f, attr):
+                        continue
+                    if not helper_cls and f.name in ("__init__", "__post_init__"):
+                        continue
+                    w.root_kind, w.root, w.field = ("classvar" if E._is_class_level(f, attr) else "self"), (f.cls.name if E._is_class_level(f, attr) else selfname), attr
+                    bad.append(w)
+        for w in bad:
+            self.res.add("C17.R6", self.repo.key(w.fi, stmt_of(w.node)), False, f"`{header(stmt_of(w.node))}` keeps state on {w.root_kind} `{w.root}.{w.field}` while computing labels: a later visualize call with other aliases can be served stale labels", where(w.fi, w.node), kind="effect")
+        self.res.add("C17.R6", f"{self.draw.relpath}::NetworkxGraph::label functions are stateless", not bad, f"{len(funcs)} functions reachable from draw write no object, class or module state", kind="effect")
